@@ -29,6 +29,8 @@ CORPUS = [
      "gates": [], "perturb": {}, "seed": 2, "timeout": 20, "settle": 6},
 ]
 
+CORPUS = CORPUS + sysprop.starvation_probes()
+
 REQUIRED = ["rDecidePark", "rDecideReady", "rForward", "rScanFwd", "wSend", "wFinish"]
 
 
